@@ -648,3 +648,10 @@ func runCluster(c *kit.Case, ctor string, nKeys int) {
 		c.Sample("cluster/"+ctor, 2, witness())
 	}
 }
+
+func clusterKeys(quick, thorough int) int {
+	if kit.Thorough() {
+		return thorough
+	}
+	return quick
+}
